@@ -182,7 +182,8 @@ def run(ctx, chk):
         report_aborts(chk, "C03.R9", m, I.events, where)
 
     # R4 production level: Err arm returns INT(0), stores nothing
-    ov = {"memory_addr": addr_atom("m"), "byte_label": addr_atom("lb"), "word_label": addr_atom("lw")}
+    from units import address_overrides
+    ov = address_overrides(G)
     for k, p in enumerate(G.productions("unary_arithmetic")):
         label = G.prod_label("unary_arithmetic", k)
         where = f"{G.g['file']}:{p['line']}"
